@@ -56,7 +56,7 @@ func init() {
 		explain: "strategy.Outcome, NormalizeActions, DenormalizeActions, CountTransactions and the buy-and-hold strategy run through their real channels on symbolic positive values and symbolic action words of unequal lengths; the solver decides equality with an independent cash/units portfolio model and the listed consequences (>= -100%, 0 until the first Buy, v_i/v_0-1 for buy-and-hold, invariance under normalisation, alternation, round trip)",
 		bounds: func(t string) string {
 			if t == "thorough" {
-				return "stream lengths 0..12 (all unequal combinations within +-3), normalisation words up to 14"
+				return "stream lengths 0..11 (all unequal combinations within +-3), normalisation words up to 14"
 			}
 			return "stream lengths 0..8 (all unequal combinations within +-2), normalisation words up to 9"
 		},
@@ -66,7 +66,7 @@ func init() {
 			var out []sym.CaseSpec
 			maxN, d, normN := 8, 2, 9
 			if tier == "thorough" {
-				maxN, d, normN = 12, 3, 14
+				maxN, d, normN = 11, 3, 14
 			}
 			for nv := 0; nv <= maxN; nv++ {
 				for na := nv - d; na <= nv+d; na++ {
